@@ -1,8 +1,8 @@
-(* C06 — lost frames or a vanished peer end a transfer cleanly, never with corrupt data (J1939-21 model;
-   the J1939-22 layer is checked by fault enumeration on the real code and by C02's model). *)
-From J1939 Require Import Base CodecGlue Model21.
-From J1939.gen Require Import Codec Tp21Gen CaGen.
-From J1939P Require Import CodecProofs Flat Tp21Seg Tp21Resp Tp21Orig TimeoutProofs.
+(* C06 — lost frames or a vanished peer end a transfer cleanly, never with corrupt data (J1939-21 model and the
+   receive side of the J1939-22 model; FD give-up times are checked by fault enumeration on the real code). *)
+From J1939 Require Import Base CodecGlue Model21 Model22.
+From J1939.gen Require Import Codec Tp21Gen CaGen Tp22Gen.
+From J1939P Require Import CodecProofs Flat Tp21Seg Tp21Resp Tp21Orig TimeoutProofs MpgProofs PoolProofs Tp22Proofs.
 
 (* T06.1: exact payload or nothing — any set of DT frames carrying fewer bytes than announced delivers nothing *)
 Theorem C06_lost_packet_never_delivers : forall prio sa dest frames n b,
@@ -62,3 +62,37 @@ Theorem C06_finished_session_removed : forall key now nw n k b,
   snd_pass [key] now nw n k = k (set_snd n (tdel (n_snd n) key)) nw.
 Proof. exact finished_session_removed. Qed.
 Print Assumptions C06_finished_session_removed.
+
+(* T06.1 (J1939-22): exact payload or nothing on the FD layer.  ANY sequence of FD data frames for a session (any
+   segment numbers, order, repetition, instants) that together carry fewer bytes than announced, followed by ANY
+   end-of-message status, delivers nothing to any listener *)
+Theorem C06_fd_lost_segment_never_delivers : forall prio sa dest frames eom now m b0,
+  eom_frame_ok eom ->
+  let h := tp22_hash (tp22_cm_session_num eom) sa dest in
+  tget (f_rcv m) h = Some b0 ->
+  len (q_data b0) + fold_right (fun f acc => len (payload22 (fst f)) + acc) 0 frames < q_size b0 ->
+  let '(m1, o1) := feed_dt22 prio sa dest frames m in
+  no_delivery (o1 ++ fouts22 (process_tp_cm22 prio sa dest eom now m1)).
+Proof. exact fd_lost_segment_never_delivers. Qed.
+Print Assumptions C06_fd_lost_segment_never_delivers.
+
+(* a segment out of sequence (every segment after a lost one) changes nothing at all *)
+Theorem C06_fd_out_of_sequence_ignored : forall prio sa dest data now m b,
+  tget (f_rcv m) (tp22_hash (tp22_dt_session_num data) sa dest) = Some b ->
+  q_next b <> tp22_dt_segment_num data ->
+  flat22 (process_tp_dt22 prio sa dest data now m) = (m, [], RDone 0).
+Proof. exact dt22_out_of_sequence_ignored. Qed.
+Print Assumptions C06_fd_out_of_sequence_ignored.
+
+(* a status that does not match what was collected: nothing delivered, session released, connection-mode peer told *)
+Theorem C06_fd_mismatch_aborts_and_releases : forall prio sa dest data now m b,
+  eom_frame_ok data ->
+  let h := tp22_hash (tp22_cm_session_num data) sa dest in
+  tget (f_rcv m) h = Some b ->
+  ~ (q_size b = tp22_cm_message_size data /\ q_nseg b = tp22_cm_segment_num data /\ len (q_data b) = tp22_cm_message_size data) ->
+  fouts22 (process_tp_cm22 prio sa dest data now m) =
+    (if dest =? addr_GLOBAL then []
+     else [OTx (tp22_abort dest sa (tp22_cm_session_num data) tp22_reason_RESOURCES (q_pgn b))]) /\
+  f_rcv (fnode22 (process_tp_cm22 prio sa dest data now m)) = tdel (f_rcv m) h.
+Proof. exact eom_status_mismatch_delivers_nothing. Qed.
+Print Assumptions C06_fd_mismatch_aborts_and_releases.
